@@ -59,6 +59,50 @@ func negativeWait(s *kit.Summary, x *in, t int64, n uint64, w int64, stop, pk bo
 		expected: fmt.Sprintf("a wait >= 0, or stop (schedule %s)", sch.show(t)), observed: fmt.Sprintf("Pace(%d, %d) = (%d, false)", t, n, w)}, true
 }
 
+// overflowRegion: "arithmetic overflow stops the attack instead of wrapping", at the counts where the
+// schedule cannot reach hits+1 within representable time (S(MaxInt64 ns) < hits+1: the deadline of the
+// next hit does not fit a time.Duration).  There the answer has to be stop, or a wait after which the
+// count is still within one hit of the schedule, hits <= S(elapsed+wait); anything else — typically
+// (0,false) or a small wait out of a wrapped deadline — puts the count ahead of the declared schedule
+// for good.  Not judged: a wait whose end lies beyond MaxInt64, negative slopes, rates of 0.01 hit/ns up.
+func overflowRegion(s *kit.Summary, x *in, w int64, stop, pk bool) {
+	sch := scheduleOf(x)
+	if sch == nil || pk || x.Elapsed < 0 || x.Hits == math.MaxUint64 || !sch.ahead(x.Hits+1, math.MaxInt64) {
+		return
+	}
+	switch x.Pacer {
+	case "linear":
+		if l := sch.(linSched); l.a < 0 || (l.a*9.223372036854775807e9+l.b)/1e9 >= subNs/10 {
+			return
+		}
+	case "sine":
+		if ss := sch.(sineSched); ss.m+math.Abs(ss.a) >= subNs/10 {
+			return
+		}
+	}
+	if stop {
+		s.Count(x.Pacer + ".overflow_region:stopped")
+		return
+	}
+	wp := w
+	if wp < 0 {
+		wp = 0
+	}
+	if wp > math.MaxInt64-x.Elapsed {
+		s.Count(x.Pacer + ".overflow_region:wait_ends_beyond_maxint64_not_judged")
+		return
+	}
+	if !sch.ahead(x.Hits, x.Elapsed+wp) {
+		s.Count(x.Pacer + ".overflow_region:wait_within_one_hit")
+		return
+	}
+	kind := map[string]string{"const": "const_overflow_guard_off_by_one", "linear": "linear_overflow_wraps", "sine": "sine_overflow_wraps"}[x.Pacer]
+	report(s, x, finding{kind: kind, clause: "overflow_region",
+		what:     "the next hit's deadline is beyond the representable time, yet the answer is neither stop nor a wait that keeps the count within one hit of the schedule (a wrapped deadline)",
+		expected: fmt.Sprintf("stop, or a wait w with %d <= S(%d+w)  (S(MaxInt64) = %s)", x.Hits, x.Elapsed, sch.show(math.MaxInt64)),
+		observed: fmt.Sprintf("(%d, false), S(%d) = %s", w, x.Elapsed+wp, sch.show(x.Elapsed+wp))})
+}
+
 func rateOracle(s *kit.Summary, x *in, t int64) {
 	want, scale, ok := rateOf(x, t)
 	if !ok {
